@@ -520,7 +520,10 @@ fn main() {
                         if nsnap > 40 { break; }
                         // the internal cone list may differ from the user's (collapse, presolve): use the solver's
                         // own internal dimensions only when they match the user's list
-                        if s.len() == p.b.len() && o.removed.unwrap_or(0) == 0 {
+                        // problems of the extreme-magnitude stream (data scaled by 1e+-50 / 1e+-150) are
+                        // excluded: there "strictly inside up to rounding" cannot be told apart from
+                        // "on the boundary" (a unit shift is absorbed by entries of size 1e50)
+                        if s.len() == p.b.len() && o.removed.unwrap_or(0) == 0 && !p.label.contains("scaled by") {
                             sink.case("interior", json!({"label": p.label, "snapshot": nsnap, "tau": tau, "kappa": kappa}),
                                 format!("(c_interior {} {} {} {} {})", cones_coq(&p.cones), cdylist(s), cdylist(z), cdy(*tau), cdy(*kappa)),
                                 &["C07"]);
